@@ -6,6 +6,8 @@ git rm -q --cached lean/Driver/Main.lean 2>/dev/null; rm -f lean/Driver/Main.lea
 for f in evidence/C08.json evidence/C06.json MANIFEST.json lean/lakefile.toml; do
   if git status --short "$f" | grep -q "^[UAD][UAD]"; then git checkout --ours "$f" 2>/dev/null; git add "$f"; fi
 done
+if git status --short known_findings.json | grep -q "^UU"; then python3 tools/merge_kf.py "$1"; git add known_findings.json; fi
+if git status --short harness/src/gen/mod.rs | grep -q "^UU"; then grep -h "^pub mod" harness/src/gen/mod.rs | sort -u > /tmp/mod.rs.$$; mv /tmp/mod.rs.$$ harness/src/gen/mod.rs; git add harness/src/gen/mod.rs; fi
 git status --short | grep "^[UAD][UAD]" && { echo "UNRESOLVED CONFLICTS"; exit 1; }
 python3 tools/gen/dispatch.py
 python3 tools/mkmanifest.py
